@@ -95,17 +95,24 @@ def model(case):
     return exp, report_order, matching, anc
 
 
-def evaluate(case):
+def evaluate(case, _live=None):
+    """_live: (ReposCollection, FakeRepo) of an earlier report on the same objects (part two_reports)"""
     import ak.ghist as G
     f = []
     classes = set()
     spec = build_spec(case)
-    repo = fakegit.FakeRepo(spec)
-    Cls = fakegit.make_project_repo_class(G)
+    if _live is None:
+        repo = fakegit.FakeRepo(spec)
+        Cls = fakegit.make_project_repo_class(G)
+    else:
+        coll, repo = _live
     try:
         with call_budget(400000, "ak/ghist.py"):
-            prj = Cls("main", repo, "origin")
-            coll = G.ReposCollection({"main": prj})
+            if _live is None:
+                prj = Cls("main", repo, "origin")
+                coll = G.ReposCollection({"main": prj})
+            if case.get("_keep") is not None:
+                case["_keep"].extend([coll, repo])
             data = coll.make_reports_data(case["search"])
             rgraph = dict(data)["main"]
             listing = fakegit.extract_listing(rgraph)
@@ -290,6 +297,50 @@ def st_case(draw, max_commits=10):
             "render": draw(st.integers(0, 3)) == 0}
 
 
+def eval_two_reports(case):
+    """a report, then 'git fetch' brings new build tags / a new branch (nothing else moves), then a second report on the same
+    ReposCollection / ProjectRepo objects: the second report is judged like any report of the new state"""
+    first = dict(case["first"], _keep=[])
+    o1 = evaluate(first)
+    f = [(b + "_in_first_report", d) for b, d in o1.findings]
+    classes = set(o1.classes) | {"two_reports"}
+    if f or len(first["_keep"]) != 2:
+        return Outcome(True, sorted(classes), f)
+    coll, repo = first["_keep"]
+    second = dict(case["second"])
+    repo.stage(build_spec(second))
+    try:
+        ns, nf = coll.sync()
+    except Exception as e:   # noqa
+        return Outcome(True, sorted(classes), [("sync_raises_" + type(e).__name__, str(e))])
+    if nf:
+        return Outcome(True, sorted(classes), [("sync_failed", "")])
+    o2 = evaluate(second, _live=(coll, repo))
+    f += [(b + "_in_second_report_after_fetch", d) for b, d in o2.findings]
+    classes |= set(o2.classes)
+    if len(second["tags"]) > len(case["first"]["tags"]):
+        classes.add("build_tags_arrive_between_reports")
+    if len(second["branches"]) > len(case["first"]["branches"]):
+        classes.add("branch_arrives_between_reports")
+    return Outcome(True, sorted(classes), f, key=[case["second"]["commits"], case["second"]["tags"], case["first"]["tags"],
+                                                  sorted(case["first"]["branches"])])
+
+
+@st.composite
+def st_two_reports(draw):
+    second = draw(st_case(max_commits=8))
+    second["render"] = False
+    first = {k: (list(v) if isinstance(v, list) else dict(v) if isinstance(v, dict) else v) for k, v in second.items()}
+    keep = [draw(st.booleans()) for _ in second["tags"]]
+    first["tags"] = [t for t, k in zip(second["tags"], keep) if k]
+    first["tag_nums"] = [n for n, k in zip(second["tag_nums"], keep) if k]
+    if len(second["branches"]) >= 2 and draw(st.integers(0, 2)) == 0:
+        gone = draw(st.sampled_from(sorted(second["branches"])))
+        first["branches"] = {b: i for b, i in second["branches"].items() if b != gone}
+        # tags of a branch that does not exist yet stay (a tag is just a ref)
+    return {"first": first, "second": second}
+
+
 def regression_cases():
     # F4: release/2.0 head (commit 1) is an ancestor of release/1.0 head (commit 2); both commits match
     yield {"commits": [{"parents": [], "msg": "init", "ts": 10}, {"parents": [0], "msg": "BUG-7 a", "ts": 20},
@@ -297,13 +348,18 @@ def regression_cases():
            "branches": {"release/1.0": 2, "release/2.0": 1}, "tags": [], "tag_nums": [], "search": "BUG-7", "render": True}
 
 
+def _parts_extra(k):
+    return [Part("two_reports", eval_two_reports, strategy=st_two_reports, examples=4000 * k,
+                 note="report, fetch (new tags / a new branch), report again on the same objects")]
+
+
 def parts(tier):
     if tier == "quick":
         return [Part("regressions", evaluate, enumerate=regression_cases, exhaustive=True),
-                Part("histories", evaluate, strategy=st_case, examples=20000)]
+                Part("histories", evaluate, strategy=st_case, examples=20000)] + _parts_extra(1)
     return [Part("regressions", evaluate, enumerate=regression_cases, exhaustive=True),
             Part("histories", evaluate, strategy=st_case, examples=300000),
-            Part("histories_large", evaluate, strategy=lambda: st_case(max_commits=18), examples=100000)]
+            Part("histories_large", evaluate, strategy=lambda: st_case(max_commits=18), examples=100000)] + _parts_extra(30)
 
 
 TECHNIQUE = "model-based property testing (Hypothesis): generated commit DAGs / heads / tags / messages on an in-memory git back-end, compared with a set-based reference model of the report written from the statement"
